@@ -8,7 +8,7 @@
 //
 // stdin : <seed> <feat> <nbody> <nmesh> <ntex> <flags> <reps>      flags: 1 = length ranges, 2 = hfield,
 //         4 = builtin meshes, 8 = start with usethread off, 16 = delayed actuators (history), 32 = muscle rig (length ranges of
-//         the muscles go through the pool under the default LRopt.mode)
+//         the muscles go through the pool under the default LRopt.mode), 64 = 2..4 extra mocap bodies
 // stdout: CASE i / lines "CMP <what> <0|1> <detail>" and "STATE <what> <0|1> <detail>" / END <OK|DIFF|REJECTED|REJDIFF>
 //         (REJ <what> <0|1> <error>: the spec is rejected; the error text must be identical in every variant)
 #include <math.h>
@@ -149,6 +149,18 @@ static mjSpec* make_spec(uint64_t seed, unsigned feat, int nbody, int nmesh, int
     mjs_setFloat(h->userdata, e.data(), (int)e.size());
     mjsGeom* g = mjs_addGeom(world, NULL); mjs_setName(g->element, "ghf");
     g->type = mjGEOM_HFIELD; mjs_setString(g->hfieldname, "hf"); g->pos[0] = 3;
+  }
+  if (flags & 64) {   // several mocap bodies (mocap_pos has stride 3, mocap_quat stride 4: the index spaces differ from the
+    // second body on), with non-default poses, some welded to tree bodies
+    int nm = 2 + mjg_int(&R, 3);
+    for (int k = 0; k < nm; k++) {
+      mjsBody* mb = mjs_addBody(world, NULL);
+      char nb[32]; snprintf(nb, sizeof(nb), "xmocap%d", k); mjs_setName(mb->element, nb);
+      mb->mocap = 1;
+      mb->pos[0] = mjg_range(&R, -2, 2); mb->pos[1] = mjg_range(&R, -2, 2); mb->pos[2] = mjg_range(&R, 0.2, 2);
+      mjg_quat(&R, mb->quat);
+      mjsGeom* g = mjs_addGeom(mb, NULL); g->type = mjGEOM_SPHERE; g->size[0] = 0.02; g->contype = 0; g->conaffinity = 0;
+    }
   }
   if (flags & 32) {   // muscle rig: limited, damped hinges away from the rest, motors on some, muscles on the others.
     // With the default LRopt.mode (muscles only) the length ranges of the muscles are computed through the pool while the
@@ -310,6 +322,15 @@ static void run_case(uint64_t seed, unsigned feat, int nbody, int nmesh, int nte
     for (int i = 0; i < m1->nuserdata; i++) d->userdata[i] = mjg_u(&R);
     if (MJG_TRY) { for (int k = 0; k < 3; k++) mj_step(m1, d); MJG_END; } else { printf("NOTE step error %s\n", mjg_last_error); }
     mjg_random_state(m1, d, &R, 0.3);   // fresh random controls / applied forces after stepping; time, act, warmstart keep their stepped values
+    // every saved component gets pairwise distinct, non-default values (unit quaternions for the mocap orientations), so
+    // that any index shift or stride mix-up between bodies / actuators shows
+    for (int i = 0; i < m1->nmocap; i++) {
+      for (int k = 0; k < 3; k++) d->mocap_pos[3 * i + k] = mjg_range(&R, -3, 3);
+      double q[4]; mjg_quat(&R, q); for (int k = 0; k < 4; k++) d->mocap_quat[4 * i + k] = q[k];
+    }
+    for (int i = 0; i < m1->na; i++) d->act[i] = mjg_range(&R, -0.7, 0.7);
+    for (int i = 0; i < m1->nu; i++) d->ctrl[i] = mjg_range(&R, -1, 1);
+    for (int i = 0; i < m1->nv; i++) d->qvel[i] = mjg_range(&R, -1, 1);
     std::vector<std::vector<mjtNum>> before;
     for (const Comp& c : COMPS) { std::vector<mjtNum> b(mj_stateSize(m1, c.sig)); mj_getState(m1, d, b.data(), c.sig); before.push_back(b); }
     int rc = mj_recompile(s, NULL, m1, d);
@@ -327,6 +348,8 @@ static void run_case(uint64_t seed, unsigned feat, int nbody, int nmesh, int nte
     // recompile after an edit that appends a body with a joint: the state of the old joints is kept
     {
       std::vector<mjtNum> qp(d->qpos, d->qpos + m1->nq), qv(d->qvel, d->qvel + m1->nv), ac(d->act, d->act + m1->na);
+      std::vector<mjtNum> mp(d->mocap_pos, d->mocap_pos + 3 * m1->nmocap), mq(d->mocap_quat, d->mocap_quat + 4 * m1->nmocap), ct(d->ctrl, d->ctrl + m1->nu);
+      int nmo0 = m1->nmocap, nu0 = m1->nu;
       mjtNum tm = d->time; int nq0 = m1->nq, nv0 = m1->nv, na0 = m1->na;
       mjsBody* nb = mjs_addBody(mjs_findBody(s, "world"), NULL); mjs_setName(nb->element, "c33_added");
       nb->pos[0] = -3;
@@ -337,7 +360,9 @@ static void run_case(uint64_t seed, unsigned feat, int nbody, int nmesh, int nte
       else {
         int ok = m1->nq == nq0 + 1 && m1->nv == nv0 + 1 && m1->na == na0 && d->time == tm &&
                  !memcmp(d->qpos, qp.data(), sizeof(mjtNum) * nq0) && !memcmp(d->qvel, qv.data(), sizeof(mjtNum) * nv0) &&
-                 !memcmp(d->act, ac.data(), sizeof(mjtNum) * na0) && d->qpos[nq0] == m1->qpos0[nq0] && d->qvel[nv0] == 0;
+                 !memcmp(d->act, ac.data(), sizeof(mjtNum) * na0) && d->qpos[nq0] == m1->qpos0[nq0] && d->qvel[nv0] == 0 &&
+                 m1->nmocap == nmo0 && m1->nu == nu0 && !memcmp(d->mocap_pos, mp.data(), sizeof(mjtNum) * 3 * nmo0) &&
+                 !memcmp(d->mocap_quat, mq.data(), sizeof(mjtNum) * 4 * nmo0) && !memcmp(d->ctrl, ct.data(), sizeof(mjtNum) * nu0);
         printf("STATE edit-recompile %d nq %d->%d\n", ok, nq0, (int)m1->nq);
       }
     }
